@@ -5,6 +5,7 @@ package main
 import (
 	"fmt"
 	"go/ast"
+	"go/constant"
 	"go/token"
 	"go/types"
 	"strconv"
@@ -15,6 +16,7 @@ import (
 type trPrim struct {
 	lean   string
 	effect bool                                                  // result in the Outcome monad
+	mutRecv bool                                                 // statement-only: the receiver variable is rebound to the result
 	args   func(c *trCtx, call *ast.CallExpr) []ast.Expr // optional: checks the call and selects the arguments that are translated
 }
 
@@ -63,6 +65,12 @@ var trPrims = map[string]trPrim{
 	"(github.com/shopspring/decimal.Decimal).String":       {lean: "Decimal.String"},
 	"(github.com/shopspring/decimal.Decimal).StringFixed":  {lean: "Decimal.StringFixed"},
 	"strings.ReplaceAll":                                    {lean: "Strings.ReplaceAll"},
+	"strings.Index":                                         {lean: "Strings.Index"},
+	"(*strings.Builder).String":                             {lean: "Strings.Builder.String"},
+	"(*strings.Builder).WriteString":                        {lean: "Strings.Builder.WriteString", mutRecv: true},
+	"(*strings.Builder).WriteRune":                          {lean: "Strings.Builder.WriteRune", mutRecv: true},
+	"unicode.IsDigit":                                       {lean: "Unicode.IsDigit"},
+	"(github.com/shopspring/decimal.Decimal).Shift":         {lean: "Decimal.Shift"},
 	"strings.Repeat":                                        {lean: "Strings.Repeat"},
 	"unicode/utf8.RuneCountInString":                        {lean: "Strings.RuneCount"},
 }
@@ -295,6 +303,11 @@ func (c *trCtx) expr(e ast.Expr) string {
 			return c.expr(x.X)
 		}
 		ty := tv.Type
+		if trIsRune(ty) {
+			if n, ok := constantInt(tv.Value); ok {
+				return "(Char.ofNat " + strconv.Itoa(n) + ")"
+			}
+		}
 		if trIsInt(ty) || isBasicKind(ty, types.IsBoolean|types.IsString) {
 			lit := c.t.constLit(tv.Value, ty, e.Pos())
 			if trIsInt(ty) {
@@ -332,6 +345,14 @@ func (c *trCtx) expr(e ast.Expr) string {
 	}
 	trFail(e.Pos(), "expression %T is outside the subset", e)
 	return ""
+}
+
+func constantInt(v constant.Value) (int, bool) {
+	if v.Kind() != constant.Int {
+		return 0, false
+	}
+	n, ok := constant.Int64Val(v)
+	return int(n), ok
 }
 
 func isBasicKind(ty types.Type, info types.BasicInfo) bool {
@@ -520,12 +541,15 @@ func (c *trCtx) binary(x *ast.BinaryExpr) string {
 			}
 		}
 		c.leanType(tx, x.Pos())
+		if c.t.hasOmitted(tx) {
+			trFail(x.Pos(), "comparison of %s, a struct with omitted fields, is outside the subset", tx)
+		}
 		if x.Op == token.EQL {
 			return "(decide (" + a + " = " + b + "))"
 		}
 		return "(!decide (" + a + " = " + b + "))"
 	case token.LSS, token.LEQ, token.GTR, token.GEQ:
-		if !(trIsInt(tx) && trIsInt(ty)) && !(isBasicKind(tx, types.IsString) && isBasicKind(ty, types.IsString)) {
+		if !(trIsInt(tx) && trIsInt(ty)) && !(isBasicKind(tx, types.IsString) && isBasicKind(ty, types.IsString)) && !(trIsRune(tx) && trIsRune(ty)) {
 			trFail(x.Pos(), "ordering %s on %s is outside the subset", x.Op, tx)
 		}
 		op := map[token.Token]string{token.LSS: "<", token.LEQ: "≤", token.GTR: ">", token.GEQ: "≥"}[x.Op]
@@ -576,6 +600,9 @@ func (c *trCtx) selector(x *ast.SelectorExpr) string {
 				trFail(x.Pos(), "selection of the promoted field %s is outside the subset", x.Sel.Name)
 			}
 			c.leanType(sel.Recv(), x.Pos())
+			if c.t.fieldOmitted(sel.Recv(), x.Sel.Name) {
+				trFail(x.Pos(), "field %s has a type outside the subset and is omitted from the translated struct", x.Sel.Name)
+			}
 			return c.expr(x.X) + "." + trMangle(x.Sel.Name)
 		default:
 			trFail(x.Pos(), "method value %s is outside the subset", trSrc(x))
@@ -620,6 +647,12 @@ func (c *trCtx) composite(x *ast.CompositeLit) string {
 		var parts []string
 		for i := 0; i < u.NumFields(); i++ {
 			f := u.Field(i)
+			if c.t.fieldOmitted(ty, f.Name()) {
+				if _, set := given[f.Name()]; set {
+					trFail(x.Pos(), "field %s is omitted from the translated struct and cannot be set", f.Name())
+				}
+				continue
+			}
 			v, ok := given[f.Name()]
 			if !ok {
 				v = "GoZero.zero"
@@ -669,6 +702,18 @@ func (c *trCtx) indexExpr(x *ast.IndexExpr) string {
 
 func (c *trCtx) sliceExpr(x *ast.SliceExpr) string {
 	tx := c.typeOf(x.X)
+	if isBasicKind(tx, types.IsString) && !x.Slice3 {
+		// s[lo:hi] by BYTE offsets
+		str := c.expr(x.X)
+		lo, hi := "(0 : Int)", "(Strings.byteLen "+str+")"
+		if x.Low != nil {
+			lo = c.expr(x.Low)
+		}
+		if x.High != nil {
+			hi = c.expr(x.High)
+		}
+		return c.hoist("Strings.slice "+str+" "+lo+" "+hi, x.Pos())
+	}
 	if _, ok := tx.Underlying().(*types.Slice); !ok || x.Slice3 {
 		trFail(x.Pos(), "slicing a value of type %s is outside the subset", tx)
 	}
@@ -765,6 +810,9 @@ func (c *trCtx) call(x *ast.CallExpr) string {
 		return "(" + pin.lean + " " + strings.Join(args, " ") + ")"
 	}
 	if p, ok := trPrims[full]; ok {
+		if p.mutRecv {
+			trFail(x.Pos(), "%s inside an expression is outside the subset (statement only)", full)
+		}
 		app := p.lean + " " + strings.Join(args, " ")
 		if p.effect {
 			return c.hoist(app, x.Pos())
